@@ -42,12 +42,16 @@ void h_bitnot_bounds(void) {
     int w = t == VType_CHAR ? 8 : t == VType_SHORT ? 16 : t == VType_INT ? 32 : pl.long_bit;
     __CPROVER_assume(w < 64);          /* 64-bit operands: ordering of unsigned patterns above LLONG_MAX is not decided */
     bigint x = nondet_bigint(), v = nondet_bigint(); int bound = nondet_int(); __CPROVER_assume(bound >= 0 && bound <= 2);
-    if (s == Sign_UNSIGNED) __CPROVER_assume(x >= 0 && x <= (bigint)((1ULL << w) - 1) && v >= 0 && v <= (bigint)((1ULL << w) - 1));
-    else __CPROVER_assume(x >= -(bigint)(1ULL << (w - 1)) && x <= (bigint)((1ULL << (w - 1)) - 1) && v >= -(bigint)(1ULL << (w - 1)) && v <= (bigint)((1ULL << (w - 1)) - 1));
+    /* x is a value of the type; the bound v of a fact need not be one: `x > -1` is a fact cppcheck attaches to every unsigned
+       expression, `x < max + 1` is equally true (one step outside the range on either side; point facts stay in range) */
+    int slack = bound == 2 ? 0 : 1;
+    if (s == Sign_UNSIGNED) __CPROVER_assume(x >= 0 && x <= (bigint)((1ULL << w) - 1) && v >= -slack && v <= (bigint)((1ULL << w) - 1) + slack);
+    else __CPROVER_assume(x >= -(bigint)(1ULL << (w - 1)) && x <= (bigint)((1ULL << (w - 1)) - 1) && v >= -(bigint)(1ULL << (w - 1)) - slack && v <= (bigint)((1ULL << (w - 1)) - 1) + slack);
     __CPROVER_assume(imp_fact(bound, v, x));
     g_in_x = x; g_in_v = v; g_in_bound = bound; g_in_type = t; g_in_sign = s; g_in_long_bit = pl.long_bit;
-    int b2 = bound;
-    bigint nv = bitnot_block2(v, &b2, 1, t, s, 0, &pl);
+    int b2 = bound; _Bool dropped = 0;
+    bigint nv = bitnot_block3(v, &b2, 1, &dropped, 1, t, s, 0, &pl);
+    if (dropped) return;               /* no value is handed on: nothing is claimed */
     int pw = w < 32 ? 32 : w; _Bool pu = w < 32 ? 0 : (s == Sign_UNSIGNED);
     bigint y = pu ? (bigint)((~(biguint)x) & ((1ULL << pw) - 1)) : ~x;
     __CPROVER_assert(imp_fact(b2, nv, y), "an impossible value of x (with its bound) handed on through ~ is a true fact about ~x in the promoted type");
@@ -85,6 +89,10 @@ def build(ctx):
     t, n = located_rules(reg, _common.VT_RULES + [
         (r'\bv\.intvalue\b', 'v_intvalue', 3),
         (r'\bv\.invertBound\(\)\s*;', 'if (*v_bound == 1) *v_bound = 0; else if (*v_bound == 0) *v_bound = 1;   /* Value::invertBound (extracted and checked in K44): 0 Upper, 1 Lower, 2 Point */', 0, 1),
+        (r'\bv\.isImpossible\(\)', 'v_impossible', 0, 1),
+        (r'\bv\.bound != Value::Bound::Point\b', '*v_bound != 2', 0, 1),
+        (r'\bval\.intvalue\b', 'val_intvalue', 0),
+        (r'\bcontinue\s*;', '{ *dropped = 1; return 0; }', 0, 1),
         (r'\btok->valueType\(\)->(sign|type|pointer)\b', r'vt_\1', 3),
         (r'\btok->valueType\(\)(?!->)', 'has_vt', 1, 1),
         (r'\bsettings\.platform\.(\w+)', r'platform->\1', 2),
@@ -95,8 +103,9 @@ def build(ctx):
     kb.rules_fired = n
     text = (_common.BASE + enums + pstruct + "#define BIGINT_BITS %s\n" % mb.group(1) +
             "static int g_bound_dummy;\n"
-            "bigint bitnot_block2(bigint v_intvalue, int *v_bound, _Bool has_vt, enum VType vt_type, enum Sign vt_sign, int vt_pointer, const struct Platform *platform)\n{\n%s\n    return v_intvalue;\n}\n"
-            "bigint bitnot_block(bigint v_intvalue, _Bool has_vt, enum VType vt_type, enum Sign vt_sign, int vt_pointer, const struct Platform *platform) { int b = 2; return bitnot_block2(v_intvalue, &b, has_vt, vt_type, vt_sign, vt_pointer, platform); }\n"
+            "bigint bitnot_block3(bigint v_intvalue, int *v_bound, _Bool v_impossible, _Bool *dropped, _Bool has_vt, enum VType vt_type, enum Sign vt_sign, int vt_pointer, const struct Platform *platform)\n{\n    const bigint val_intvalue = v_intvalue;   /* Value v(val) */\n%s\n    return v_intvalue;\n}\n"
+            "bigint bitnot_block2(bigint v_intvalue, int *v_bound, _Bool has_vt, enum VType vt_type, enum Sign vt_sign, int vt_pointer, const struct Platform *platform) { _Bool d = 0; return bitnot_block3(v_intvalue, v_bound, 1, &d, has_vt, vt_type, vt_sign, vt_pointer, platform); }\n"
+            "bigint bitnot_block(bigint v_intvalue, _Bool has_vt, enum VType vt_type, enum Sign vt_sign, int vt_pointer, const struct Platform *platform) { int b = 2; _Bool d = 0; return bitnot_block3(v_intvalue, &b, 0, &d, has_vt, vt_type, vt_sign, vt_pointer, platform); }\n"
             % extract.strip_comments(t))
     extract.residue_scan(text, ID)
     kb.ctext = text + HARNESS
